@@ -143,6 +143,10 @@ def case(draw):
     else:
         tb2 = tb1 + draw(st.sampled_from([0.0, 1e-3, 0.5, 10.0]))
         fb2 = fb1 + draw(st.sampled_from([0.0, 1.0, 250.0, 1e6]))
+    def as_int(x):
+        return int(x) if (float(x).is_integer() and abs(x) < 2**53 and draw(st.booleans())) else x
+
+    tb1, fb1, tb2, fb2 = as_int(tb1), as_int(fb1), as_int(tb2), as_int(fb2)
     return {"g": g, "b1": [tb1, fb1], "b2": [tb2, fb2], "kwargs_first": draw(st.sampled_from([None, None, None, None, "single_sided", "quad_segs", "mitre_limit"]))}
 
 
